@@ -133,7 +133,15 @@ def _mod():
     return core.mk("mokapot.parsers.pin_to_tsv")
 
 
-def _convert(m, text):
+def _convert(m, text, real_files=None):
+    if real_files is not None:
+        # through real file objects, as the command line does
+        src = real_files / "in.pin"
+        dst = real_files / "out.tsv"
+        src.write_text(text)
+        with open(src) as fi, open(dst, "w") as fo:
+            c = core.Call(m.pin_to_valid_tsv, fi, fo)
+        return c, dst.read_text()
     out = io.StringIO()
     c = core.Call(m.pin_to_valid_tsv, io.StringIO(text), out)
     return c, out.getvalue()
@@ -150,7 +158,11 @@ def run_pin(case):
     for rep in range(case["reps"]):
         text, expected, is_valid, meta = gen_pin(rng)
         evals += 1
-        c, got = _convert(m, text)
+        if rep % 4 == 3:
+            with core.scratch("c19") as dd:
+                c, got = _convert(m, text, real_files=dd)
+        else:
+            c, got = _convert(m, text)
         if not c.ok:
             res.violate("crash", c.sig, msg=c.info["msg"], text=text[:600], meta=meta)
             continue
